@@ -1,5 +1,5 @@
 """property id -> check function.  Each function fills an Outcome and returns the exit code."""
-from . import driver, corpus, xrun
+from . import driver, corpus, xrun, standins
 from .driver import Outcome, finish, run_x
 
 KANI_CMD = ("cargo kani -Z function-contracts -Z stubbing -Z unstable-options --export-json (proof_for_contract / stub_verified "
@@ -15,3 +15,5 @@ def x_only(prop, level="proof", explanation=None):
 
 
 CHECKS = {p: x_only(p) for p in ("C01", "C02", "C03", "C04", "C05", "C06", "C07", "C08", "C11", "C12", "C13", "C16")}
+CHECKS["C09"] = standins.check_c09
+CHECKS["C10"] = standins.check_c10
